@@ -21,6 +21,7 @@ PROP = "C04"
 SYMS = (1, 2, 3, 4, 9, 0, 7, "m4", "m1")
 RED = (1, 2, 3, 4, 9, "m4")
 MID = (1, 2, 3, 4, 9, 7, "m4")
+WIDE = (1, 2, 3, 4, 9, 260, 265, 3.5, 4.9, -252, "m4")
 BUDGET = {"quick": 600, "thorough": 3400}
 
 META = dict(
@@ -28,7 +29,8 @@ META = dict(
          "entry alphabet (k=3, L=2 over the 7-symbol sub-alphabet {1,2,3,4,9,7,masked-over-4}; thorough: full alphabet) "
          "- alphabet {1,2,3,4,9, non-flags 0 and 7, masked-over-4, masked-over-1} through qartod_compare (masked "
          "uint8, plain ndarray, float carriers), every split re-folded (associativity), and through aggregate() of "
-         "CollectedResults; every sequence of k<=3 vectors (L=2) over {1,2,3,4,9,masked} through "
+         "CollectedResults; pairs of vectors over wide-dtype carriers holding non-flag values that alias flags when narrowed "
+         "(260, 265, 3.5, 4.9, -252); every two- and three-call SEQUENCE of roll-ups of equal length (state between calls); every sequence of k<=3 vectors (L=2) over {1,2,3,4,9,masked} through "
          "PandasStore(...).compute_aggregate()/save() [thorough: L<=3,k<=3 and L<=2,k<=4 over the 6-symbol "
          "alphabet]. states = histories executed; canonical states (multisets) are counted; the per-position "
          "reference (max precedence over unmasked flag entries, MISSING if none) is order-free, so equality on every "
@@ -44,6 +46,11 @@ def ref_vec(v):
 
 
 def mk(v, carrier):
+    if carrier in ("f8w", "i8w"):  # wide carriers holding non-flag values that alias flags when narrowed to uint8
+        data = [int(e[1:]) if isinstance(e, str) else e for e in v]
+        mask = [isinstance(e, str) for e in v]
+        arr = np.array(data, dtype="float64" if carrier == "f8w" else "int64")
+        return np.ma.MaskedArray(arr, mask=mask) if any(mask) else arr
     data = [int(e[1:]) if isinstance(e, str) else e for e in v]
     mask = [isinstance(e, str) for e in v]
     if carrier == "ma":
@@ -118,10 +125,32 @@ def store_run(vectors):
     return agg, col, list(df.columns)
 
 
+def check_sequence(case):
+    """several roll-ups in one process: each must be judged on its own inputs only"""
+    import importlib
+
+    from ioos_qc import qartod
+
+    importlib.reload(importlib.import_module("ioos_qc.utils"))
+    qartod = importlib.reload(qartod)  # every history starts from the initial module state
+    vs = []
+    obs = []
+    for step, vectors in enumerate(case["calls"]):
+        out = alpha.call(qartod.qartod_compare, [mk(v, "ma") for v in vectors])
+        v2, o = judge("qartod_compare", vectors, out, extra=f"call#{min(step, 1) + 1}-of-a-sequence")
+        obs.append(o)
+        vs.extend(v2)
+        if vs:
+            break
+    return vs, True, tuple(obs), 0, len(case["calls"])
+
+
 def check_case(case):
     from ioos_qc import qartod
     from ioos_qc.results import CollectedResult
 
+    if "calls" in case:
+        return check_sequence(case)
     vectors = case["vectors"]
     entry = case["entry"]
     n = len(vectors[0])
@@ -190,6 +219,10 @@ def tasks(tier):
             ts.append(("cmp", "full", 2, 3, i))
     for i in range(len(RED) ** 2):
         ts.append(("store", 2, 3, i))
+    for i in range(len(WIDE)):
+        ts.append(("wide", i))
+    for i in range(len(RED) ** 2):
+        ts.append(("seq", i))
     if tier == "thorough":
         for i in range(len(RED) ** 3):
             ts.append(("cmp", "red", 3, 3, i))
@@ -221,6 +254,28 @@ def run_task(task, acc):
                             for c in ("nd", "f8", "i8", "ma_nomask"):
                                 yield dict(entry="qartod_compare", vectors=vectors, carrier=c)
                         yield dict(entry="aggregate", vectors=vectors)
+        run_cases(acc, gen(), check_case)
+    elif kind == "wide":
+        first = WIDE[task[1]]
+
+        def gen():
+            for L in (1, 2):
+                for rest in itertools.product(WIDE, repeat=2 * L - 1):
+                    vals = [first, *rest]
+                    vectors = [vals[:L], vals[L:]]
+                    ints = all(isinstance(e, str) or float(e) == int(e) for v in vectors for e in v)
+                    yield dict(entry="qartod_compare", vectors=vectors, carrier="f8w")
+                    if ints:
+                        yield dict(entry="qartod_compare", vectors=vectors, carrier="i8w")
+        run_cases(acc, gen(), check_case)
+    elif kind == "seq":
+        pool = vecs(RED, 2)
+        a = pool[task[1]]
+
+        def gen():
+            for b in pool:
+                yield dict(calls=[[a], [b]])
+                yield dict(calls=[[a, b], [b], [a]])
         run_cases(acc, gen(), check_case)
     elif kind == "store":
         _, L, K, i = task
